@@ -35,6 +35,7 @@ pub struct CodecPlan {
 pub enum Plan {
     Codec(CodecPlan),
     Handover(super::c10_handover::HandoverPlan),
+    SoftStop(super::c10_softstop::SoftStopPlan),
 }
 
 fn gen_addr(rng: &mut Prng, style: u64, i: usize) -> SocketAddr {
@@ -165,12 +166,15 @@ impl Property for C10 {
     fn runs(&self, tier: Tier) -> u64 { match tier { Tier::Quick => 1500, Tier::Thorough => 20000 } }
     fn gen_plan(&self, seed: u64, tier: Tier) -> Value {
         let mut rng = Prng::derive(seed, "c10/tier");
-        if rng.below(3) == 0 { serde_json::to_value(Plan::Codec(generate_codec(seed, tier))).unwrap() } else { serde_json::to_value(Plan::Handover(super::c10_handover::generate(seed, tier))).unwrap() }
+        let f = rng.below(4);
+        if f == 3 { return serde_json::to_value(Plan::SoftStop(super::c10_softstop::generate(seed, tier))).unwrap(); }
+        if f == 0 { serde_json::to_value(Plan::Codec(generate_codec(seed, tier))).unwrap() } else { serde_json::to_value(Plan::Handover(super::c10_handover::generate(seed, tier))).unwrap() }
     }
     fn run_plan(&self, plan: &Value) -> RunReport {
         match serde_json::from_value::<Plan>(plan.clone()) {
             Ok(Plan::Codec(p)) => run_codec(&p),
             Ok(Plan::Handover(p)) => super::c10_handover::run(&p, false).0,
+            Ok(Plan::SoftStop(p)) => super::c10_softstop::run(&p, false).0,
             Err(e) => RunReport { harness_error: Some(format!("bad plan: {e}")), ..Default::default() },
         }
     }
@@ -192,12 +196,14 @@ impl Property for C10 {
                 out
             }
             Ok(Plan::Handover(p)) => super::c10_handover::shrink(&p).into_iter().map(|q| serde_json::to_value(Plan::Handover(q)).unwrap()).collect(),
+            Ok(Plan::SoftStop(p)) => super::c10_softstop::shrink(&p).into_iter().map(|q| serde_json::to_value(Plan::SoftStop(q)).unwrap()).collect(),
             _ => vec![],
         }
     }
     fn debug_plan(&self, plan: &Value) -> String {
         match serde_json::from_value::<Plan>(plan.clone()) {
             Ok(Plan::Handover(p)) => super::c10_handover::run(&p, true).1,
+            Ok(Plan::SoftStop(p)) => super::c10_softstop::run(&p, true).1,
             Ok(Plan::Codec(p)) => serde_json::to_string_pretty(&run_codec(&p)).unwrap(),
             Err(e) => e.to_string(),
         }
@@ -205,9 +211,9 @@ impl Property for C10 {
     fn descr(&self) -> Descr {
         Descr {
             level: "exploration",
-            rule: "two plan families: (codec) listener sets of 0..200 addresses of every textual shape (shortest/longest IPv4, IPv6, mixes over http/tls/tcp/udp) sent with the real ScmSocket::send_listeners and read back with the real receive_listeners, each returned fd checked against its address through getsockname, plus an fd-table audit; (handover) two real workers in one simulation with a scripted master replaying the upgrade sequence at a PRNG-chosen moment relative to client activity; non-trivial = at least one listener / one request; distinct = trace hashes",
+            rule: "three plan families: (softstop) mixed-protocol scenario (HTTP/2 client over real TLS, sometimes an H1 client, H1 backend, trigger-free C14 plans) with SoftStop sent at a seeded moment inside the transfers and h2_graceful_shutdown_deadline_seconds unset/0/30/120: every request the client managed to send completes byte-exactly unless explicitly refused as retryable, SoftStop is answered OK once and the worker returns, after which the peers drain their socket buffers; (codec) listener sets of 0..200 addresses of every textual shape (shortest/longest IPv4, IPv6, mixes over http/tls/tcp/udp) sent with the real ScmSocket::send_listeners and read back with the real receive_listeners, each returned fd checked against its address through getsockname, plus an fd-table audit; (handover) two real workers in one simulation with a scripted master replaying the upgrade sequence at a PRNG-chosen moment relative to client activity; non-trivial = at least one listener / one request; distinct = trace hashes",
             assumptions: vec!["AF_UNIX listening sockets with simulated addresses stand in for TCP listeners", "release semantics"],
-            real: vec!["sozu_command_lib::scm_socket (SCM_RIGHTS over a real unix socket pair)", "two sozu_lib::server::Server::run loops (handover family)"],
+            real: vec!["sozu_command_lib::scm_socket (SCM_RIGHTS over a real unix socket pair)", "two sozu_lib::server::Server::run loops (handover family)", "one Server::run with rustls on both sides (softstop family)"],
             stub: vec!["master process (scripted: ReturnListenSockets -> receive -> boot successor -> SoftStop + activate)", "clients", "backends", "clock", "entropy"],
             not_covered: vec!["the real master's orchestration (bin/src/command/upgrade.rs)", "old worker crashing mid-hand-over", "SO_REUSEPORT balancing"],
         }
